@@ -559,27 +559,32 @@ func checkWalkShape(c *kit.Ctx, m *storeModel, wf *kit.Func, o *kit.Ob) {
 			params[p] = true
 		}
 	}
+	// with the searched id equal to the start the walk answers true on every path
+	// (however the comparison is spelled: inline, through a local, in a predicate)
 	eqGuard := false
-	ast.Inspect(wf.Body, func(n ast.Node) bool {
-		is, ok := n.(*ast.IfStmt)
-		if !ok {
-			return true
+	{
+		st := &kit.Std{F: wf}
+		st.ShouldInline = func(cf *kit.Func, call *ast.CallExpr) bool { return cf != wf && txParamOf(cf) == nil }
+		st.Eval.Atom = func(e ast.Expr) (string, bool, bool) {
+			isP := func(x ast.Expr) bool { return params[st.ObjOf(x)] }
+			if neg, ok := eqAtom(e, isP, isP); ok {
+				return "same", neg, true
+			}
+			return "", false, false
 		}
-		isP := func(e ast.Expr) bool { return params[kit.ObjOf(info, e)] }
-		if neg, ok := eqAtom(is.Cond, isP, isP); ok && !neg {
-			for _, s := range is.Body.List {
-				if r, ok := s.(*ast.ReturnStmt); ok && len(r.Results) > 0 {
-					if v, ok := kit.ConstInt(info, r.Results[0]); ok {
-						_ = v
-					}
-					if tv := info.Types[r.Results[0]]; tv.Value != nil && tv.Value.String() == "true" {
-						eqGuard = true
-					}
-				}
+		res := c.P.Graph(wf).Run(kit.NewS().Set("a:same", "T"), st.Client())
+		n, allTrue := 0, true
+		for _, ex := range res.Exits {
+			if ex.Return == nil || len(ex.Return.Results) == 0 {
+				continue
+			}
+			n++
+			if v, ok := st.FoldExpr(ex.Return.Results[0], ex.State); !ok || v.ExactString() != "true" {
+				allTrue = false
 			}
 		}
-		return true
-	})
+		eqGuard = n > 0 && allTrue && !res.Overflow
+	}
 	// does the walk recurse at all?  If not it must be an iterative work-list walk.
 	recursive := false
 	for _, call := range wf.AllCalls(true) {
@@ -1135,15 +1140,14 @@ func checkWalkRoles(c *kit.Ctx, m *storeModel, ew *pointWriter, wf *kit.Func, si
 		o.Undecided("the edge query of %s is not bound to a parameter", wf.Name)
 		return
 	}
+	// the searched id: the string parameter the start is compared with (wherever the
+	// comparison is written: an if, a boolean local, a return)
 	ast.Inspect(wf.Body, func(n ast.Node) bool {
-		is, ok := n.(*ast.IfStmt)
-		if !ok {
+		be, ok := n.(*ast.BinaryExpr)
+		if !ok || (be.Op != token.EQL && be.Op != token.NEQ) {
 			return true
 		}
-		a, b, op, okc := kit.CmpAtom(is.Cond)
-		if !okc || op != token.EQL {
-			return true
-		}
+		a, b := be.X, be.Y
 		for i, p := range params {
 			if i == startIdx {
 				continue
@@ -1156,6 +1160,28 @@ func checkWalkRoles(c *kit.Ctx, m *storeModel, ew *pointWriter, wf *kit.Func, si
 		return true
 	})
 	if targetIdx < 0 {
+		// handed to a helper together with another id: the comparison may live there
+		for _, call := range wf.AllCalls(false) {
+			if cf := wf.CalleeFunc(call); cf == nil || cf == wf {
+				continue
+			}
+			hasStart, others := false, 0
+			for _, a := range call.Args {
+				if kit.ObjOf(info, a) == types.Object(params[startIdx]) {
+					hasStart = true
+				} else if v, ok := kit.ObjOf(info, a).(*types.Var); ok {
+					for _, p := range params {
+						if p == v {
+							others++
+						}
+					}
+				}
+			}
+			if hasStart && others > 0 {
+				o.Undecided("%s compares the id it walks from with the searched id inside `%s` (not followed)", wf.Name, wf.Str(call))
+				return
+			}
+		}
 		o.Violation("%s never compares the id it walks from with the id it searches for", wf.Name)
 		return
 	}
